@@ -379,6 +379,7 @@ let split_am (obs : string) : (string * string) option =
 (* TRAV_STATS=1: count, on stderr, the cases inside the fragment proved for the code as it is *)
 let stats = (try Sys.getenv "TRAV_STATS" = "1" with Not_found -> false)
 let n_c07 = ref 0 and n_free = ref 0 and n_free_dev = ref 0 and n_dev = ref 0
+let n_nsd = ref 0 and n_nsd_dev = ref 0
 
 let c07_line q id sel root blocks obs =
   match compile (dm_of_string sel) with
@@ -395,7 +396,11 @@ let c07_line q id sel root blocks obs =
       let free = walk_quirk_free q g fuel r s in
       if free then incr n_free;
       if adv <> spec then incr n_dev;
-      if free && adv <> spec then incr n_free_dev
+      if free && adv <> spec then incr n_free_dev;
+      let nsd = no_shared_depth s in
+      if nsd then incr n_nsd;
+      if nsd && trace_text false (walk_adv current g fuel r s) <> spec then begin
+        incr n_nsd_dev; prerr_endline ("no_shared_depth but current-tree model deviates: " ^ id) end
     end;
     let verdict =
       match split_am obs with
@@ -547,4 +552,7 @@ let () =
   if !probing then begin let c = List.rev !corpus in probe c; List.iter process c end;
   if stats then
     Printf.eprintf "c07 cases %d; inside the quirk-free fragment of the tree's setting %d; model deviates from spec %d (of which inside the fragment: %d)\n"
-      !n_c07 !n_free !n_dev !n_free_dev
+      !n_c07 !n_free !n_dev !n_free_dev;
+  if stats then
+    Printf.eprintf "c07: no_shared_depth holds for %d of %d compiled selectors; current-tree model deviates from spec inside it: %d\n"
+      !n_nsd !n_c07 !n_nsd_dev
